@@ -8,7 +8,8 @@ every run): the constructors `NewConstConf/NewLineConf/NewStepConf/NewOnceConf` 
 float64 rounding is *measured* by the sampling tie (harness `cmd/c01` + `Pandora.Spec.C01`), not proved.
 
 Clause → theorem (details in notes/C01.md):
-  valid = accepted by validation      C01_validation, C01_registry
+  valid = accepted by validation      C01_validation, C01_registry; C01_json_numbers (a float64 given for an int64 option:
+                                       the regenerated decode hooks of core/config pass exactly the integers of the range)
   rate integral                        C01_cum_is_integral
   const: time of op k, count           C01_const
   line (incr./decr./flat/zero ends)    C01_line   (C01_line_flat: from = to is the const profile)
@@ -26,7 +27,8 @@ Clause → theorem (details in notes/C01.md):
   several consumers, any interleaving   C01_lazy_start_concurrent (never Start()ed), C01_started_concurrent: small-step
                                         model of the start protocol over access lists regenerated from do_at.go /
                                         start_sync.go (`Gen/SchedConc.lean`); C01_lazy_start_flag_check_counterexample,
-                                        C01_start_overlapping_next_counterexample (limits)
+                                        C01_start_overlapping_next_counterexample (limits); C01_start_effect: what the
+                                        regenerated access list of Start leaves behind (= initStarted), a second Start panics
 -/
 import Pandora.Proofs.C01
 import Pandora.Proofs.C01Chain
@@ -34,6 +36,9 @@ import Pandora.Proofs.C01Float
 import Pandora.Proofs.C01LineFloat
 import Pandora.Bridge.C01Conc
 import Mathlib.Analysis.SpecialFunctions.Integrals.Basic
+
+set_option linter.unreachableTactic false
+set_option linter.unusedTactic false
 
 namespace Pandora.Props.C01
 open Pandora Pandora.Gen.Schedule Pandora.Bridge.Schedule Pandora.Bridge.C01 Pandora.Proofs.LineMath Pandora.Proofs.C01
@@ -95,6 +100,21 @@ theorem C01_registry :
     (limiters.map Prod.fst).Nodup := by
   decide
 
+/-- **numbers in JSON configs** (every number arrives as a float64): a float64 `v` given for an int64 option — `times`,
+`step`, a `duration` written as a number of nanoseconds — passes the two decode hooks of core/config that stand in front
+of every numeric option (REGENERATED: `WholeNumberHook`'s rejection test, `NumberRangeHook`'s range test for a signed
+field with `kindBits(reflect.Int64)` bits; both are among `DefaultHooks`) iff it is an integer of the int64 range, i.e.
+the number that is written is the option's value; in particular every value the validation predicates accept can be
+written as a number. -/
+theorem C01_json_numbers :
+    "WholeNumberHook" ∈ defaultHooks ∧ "NumberRangeHook" ∈ defaultHooks ∧
+    (∀ v : ℝ, (¬ WholeNumberHook_rejects v ∧ NumberRangeHook_fits_float kindBits_Int64 v) ↔
+      ∃ z : ℤ, (z : ℝ) = v ∧ -(2:ℤ) ^ 63 ≤ z ∧ z < (2:ℤ) ^ 63) ∧
+    (∀ n : ℤ, OnceConfig_valid n → n < 2 ^ 63 →
+      ¬ WholeNumberHook_rejects (n : ℝ) ∧ NumberRangeHook_fits_float kindBits_Int64 (n : ℝ)) :=
+  ⟨by decide, by decide, float_for_int64_iff, fun n hn h63 =>
+    (float_for_int64_iff (n : ℝ)).mpr ⟨n, rfl, by have := (OnceConfig_valid_iff n).mp hn; omega, h63⟩⟩
+
 /-- `lineCum` / `constCum` are the integrals of the configured rate since the profile's start. -/
 theorem C01_cum_is_integral (f t ops : ℝ) (D : ℤ) (x : ℝ) :
     lineCum f t D x = ∫ y in (0:ℝ)..x, lineRate f t D y ∧ constCum ops x = ∫ _y in (0:ℝ)..x, ops ∧
@@ -129,8 +149,9 @@ theorem C01_const (ops : ℝ) (D : ℤ) (h : ConstConfig_valid ops D) :
     obtain ⟨h1, h2, h3, h4, h5, h6, h7⟩ := const_core ops D hops hD0 k hk0 hkn
     exact ⟨(k:ℝ) / ops, ⟨h1, h2, h3, h4⟩, h5, h5 ▸ h6, h5 ▸ h7⟩
 
-/-- a flat line is literally the const profile -/
-theorem C01_line_flat (f : ℝ) (D : ℤ) : NewLineConf f f D = NewConstConf f D := NewLine_flat f D
+/-- a flat line is the const profile of the same rate (every accepted rate). Holds whether line.go returns `NewConst`
+for `from == to` or lets the line formula run with slope 0 (`Bridge.Schedule.NewLine_flat` proves either reading). -/
+theorem C01_line_flat (f : ℝ) (D : ℤ) (hf : 0 ≤ f) : NewLineConf f f D = NewConstConf f D := NewLine_flat f D hf
 
 /-- **line**: for every accepted `(from, to, duration)` — increasing, decreasing, flat, zero end rates, any duration
 ≥ 1 ms: count = ⌊∫ rate⌋ = ⌊(from+to)/2 · D⌋; operation k sits at the ns-truncation of the earliest instant where the
@@ -148,7 +169,7 @@ theorem C01_line (f t : ℝ) (D : ℤ) (h : LineConfig_valid f t D) :
   · -- flat: the const profile, whose integral is the same function
     subst hne
     have hc : lineCum f f D = constCum f := by funext x; unfold lineCum constCum; simp
-    rw [hc, C01_line_flat]
+    rw [hc, C01_line_flat f D hf]
     exact C01_const f D ((ConstConfig_valid_iff f D).mpr ⟨hf, hD⟩)
   · obtain ⟨at_, hnew, hk⟩ := line_core f t D hf ht hD0 hne
     refine ⟨_, at_, hnew, by rw [htotal], ?_⟩
@@ -513,29 +534,69 @@ theorem C01_float_flat (fl : ℝ → ℝ) (hfl : Rounding (1 / 2 ^ 53) fl) (f : 
       ∀ i : ℤ, 0 ≤ i → i < n → (i : ℝ) < lineCum f f D (secs D) →
         lineCum f f D ((at_ i : ℝ) / 1000000000) ≤ (i : ℝ) + ((i : ℝ) + 1 + max f f * secs D) / 2 ^ 46 ∧
         (i : ℝ) - ((i : ℝ) + 1 + max f f * secs D) / 2 ^ 46 ≤ lineCum f f D (((at_ i : ℝ) + 1) / 1000000000) := by
-  obtain ⟨hf, _, hD⟩ := (LineConfig_valid_iff f f D).mp h
-  have hs := secs_pos' (D := D) (by omega)
-  obtain ⟨n, at_, hnew, _, _, htok⟩ :=
-    C01_const_float (1 / 2 ^ 53) fl hfl f D ((ConstConfig_valid_iff f D).mpr ⟨hf, hD⟩)
-  have hflat : NewLine_fl fl f f D = NewConst_fl fl f D := by unfold NewLine_fl; schedule_aux_unfold; simp
-  have hc : lineCum f f D = constCum f := by funext x; unfold lineCum constCum; simp
-  refine ⟨n, at_, by rw [hflat, hnew], ?_⟩
-  intro i hi _ hlt
-  have hi' : (0:ℝ) ≤ (i : ℝ) := by exact_mod_cast hi
-  have hpos : 0 < f := by
-    rcases hf.lt_or_eq with h1 | h1
-    · exact h1
-    · rw [hc, ← h1] at hlt; unfold constCum at hlt; simp at hlt; linarith
-  obtain ⟨_, h2, h3, _⟩ := htok hpos i hi
-  have hm : 0 ≤ max f f * secs D := by rw [max_self]; positivity
-  -- 4·2⁻⁵³·i ≤ 2⁻⁴⁶·(i + 1 + …)
-  have hδ : 4 * (1 / 2 ^ 53 : ℝ) * (i : ℝ) ≤ ((i : ℝ) + 1 + max f f * secs D) / 2 ^ 46 := by
-    rw [le_div_iff₀ (by positivity : (0:ℝ) < 2 ^ 46)]
-    have e : 4 * (1 / 2 ^ 53 : ℝ) * (i : ℝ) * 2 ^ 46 = (i : ℝ) / 32 := by ring
-    rw [e]
-    linarith
-  rw [hc]
-  exact ⟨by linarith, by linarith⟩
+  first
+  | -- line.go returns NewConst for from == to: the const bound
+    (obtain ⟨hf, _, hD⟩ := (LineConfig_valid_iff f f D).mp h
+     have hs := secs_pos' (D := D) (by omega)
+     obtain ⟨n, at_, hnew, _, _, htok⟩ :=
+       C01_const_float (1 / 2 ^ 53) fl hfl f D ((ConstConfig_valid_iff f D).mpr ⟨hf, hD⟩)
+     have hflat : NewLine_fl fl f f D = NewConst_fl fl f D := by unfold NewLine_fl; schedule_aux_unfold; simp
+     have hc : lineCum f f D = constCum f := by funext x; unfold lineCum constCum; simp
+     refine ⟨n, at_, by rw [hflat, hnew], ?_⟩
+     intro i hi _ hlt
+     have hi' : (0:ℝ) ≤ (i : ℝ) := by exact_mod_cast hi
+     have hpos : 0 < f := by
+       rcases hf.lt_or_eq with h1 | h1
+       · exact h1
+       · rw [hc, ← h1] at hlt; unfold constCum at hlt; simp at hlt; linarith
+     obtain ⟨_, h2, h3, _⟩ := htok hpos i hi
+     have hm : 0 ≤ max f f * secs D := by rw [max_self]; positivity
+     -- 4·2⁻⁵³·i ≤ 2⁻⁴⁶·(i + 1 + …)
+     have hδ : 4 * (1 / 2 ^ 53 : ℝ) * (i : ℝ) ≤ ((i : ℝ) + 1 + max f f * secs D) / 2 ^ 46 := by
+       rw [le_div_iff₀ (by positivity : (0:ℝ) < 2 ^ 46)]
+       have e : 4 * (1 / 2 ^ 53 : ℝ) * (i : ℝ) * 2 ^ 46 = (i : ℝ) / 32 := by ring
+       rw [e]
+       linarith
+     rw [hc]
+     exact ⟨by linarith, by linarith⟩)
+  | -- no shortcut in line.go: the line formula runs with slope 0; its float64 tree is walked like an increasing line's
+    (obtain ⟨hf, _, hD⟩ := (LineConfig_valid_iff f f D).mp h
+     have hD0 : 0 < D := by omega
+     have hc : lineCum f f D = Proofs.LineMath.cum (Bridge.Schedule.slope f f D) f := by
+       funext y; unfold lineCum Proofs.LineMath.cum Bridge.Schedule.slope; field_simp; ring
+     unfold NewLine_fl lineDoAt_fl
+     schedule_aux_unfold
+     refine ⟨_, _, rfl, ?_⟩
+     intro i hi _ hlt
+     rw [hc] at hlt ⊢
+     have hpos : 0 < f := by
+       rcases hf.lt_or_eq with h1 | h1
+       · exact h1
+       · exfalso
+         rw [← h1] at hlt
+         unfold Proofs.LineMath.cum Bridge.Schedule.slope at hlt
+         simp at hlt
+         have : (0:ℝ) ≤ (i:ℝ) := by exact_mod_cast hi
+         linarith
+     by_cases h0 : i = 0
+     · subst h0
+       simp only [if_true]
+       exact Proofs.C01LineFloat.line_token0_ok hf le_rfl hD
+     · have hipos : 0 < i := lt_of_le_of_ne hi (Ne.symm h0)
+       simp only [h0, if_false]
+       refine Proofs.C01LineFloat.line_token_ok_core hf le_rfl hD hipos ?_ (Proofs.C01LineFloat.flat_cumX hpos i)
+       have hi' : (0:ℝ) < ((i : ℤ) : ℝ) := by exact_mod_cast hipos
+       have hD' : (0:ℝ) < ((D : ℤ) : ℝ) := by exact_mod_cast hD0
+       unfold Proofs.C01LineFloat.xExact Bridge.Schedule.slope Bridge.Schedule.secs
+       simp only [sub_self]
+       apply Proofs.C01LineFloat.Rel.conclude hfl
+       · rel_tree hfl
+       · decide
+       · first
+         | rfl
+         | (ring_nf; done)
+         | (congr 1 <;> ring_nf; done)
+         | (field_simp; ring_nf; done))
 
 /-- the NON-DECREASING half (`from ≤ to`) of `C01_float_statement`: flat lines are the const profile (`C01_const_float`);
 for `from < to` every float operation of line.go acts on non-negative quantities, the float64 instant lies within 27
@@ -560,7 +621,7 @@ theorem C01_float_partial (fl : ℝ → ℝ) (hfl : Rounding (1 / 2 ^ 53) fl) (f
     by_cases h0 : i = 0
     · subst h0
       simp only [if_true]
-      exact Proofs.C01LineFloat.line_token0_ok hf hlt hD
+      exact Proofs.C01LineFloat.line_token0_ok hf hlt.le hD
     · have hipos : 0 < i := lt_of_le_of_ne hi (Ne.symm h0)
       simp only [h0, if_false]
       exact Proofs.C01LineFloat.line_token_ok hf hlt hD hipos (hx i hipos) hcum
@@ -656,6 +717,20 @@ theorem C01_started_concurrent (D n : ℤ) (f : ℤ → ℤ) (t0 : ℤ) (sched :
     injection hsv with hsv
     subst hsv; exact hok
 
+/-- **what `Start(t0)` leaves behind** (the state `C01_started_concurrent` starts from): the REGENERATED access list of
+`doAtSchedule.Start`, run alone on a schedule nobody has touched, panics nowhere and ends with the started flag up, the
+Once done, `s.start = t0`, no index drawn — exactly the shared fields of `initStarted t0`; a second `Start` panics.
+Stated about what the list does, so `MarkStarted()` before or after the Once are both fine. -/
+theorem C01_start_effect (t0 t1 : ℤ) :
+    let s := Model.C01Conc.soloStart t0 Gen.SchedConc.startProg
+    let i := Model.C01Conc.initStarted t0 Gen.SchedConc.nextProg
+    s.panics = i.panics ∧ s.started = i.started ∧ s.once = i.once ∧ s.start = i.start ∧ s.ctr = i.ctr ∧ s.log = i.log ∧
+    s.th 0 = [] ∧
+    (Model.C01Conc.run t1 { s with th := fun j => if j = 0 then Gen.SchedConc.startProg else [] }
+      (List.replicate Gen.SchedConc.startProg.length (0, 0))).panics = [0] := by
+  obtain ⟨h1, h2, h3, h4, h5, h6, h7⟩ := Bridge.C01Conc.startProg_effect t0
+  exact ⟨h1, h2, h3, h4, h5, h7, h6, Bridge.C01Conc.startProg_twice t0 t1⟩
+
 /-- why the Once must come FIRST: a `Next` that consults the started flag before the Once
 (`if !s.IsStarted() { s.startOnce.Do(…) }`, flag set as the first statement of the Once's body) lets a second caller skip
 the Once while the first is between `MarkStarted()` and `s.start = time.Now()`: it answers from the zero time. -/
@@ -680,36 +755,48 @@ theorem C01_start_overlapping_next_counterexample :
           th := fun j => if j = 0 then Gen.SchedConc.startProg else Gen.SchedConc.nextProg } sched).panics ≠ [] ∨
       ∃ a ∈ (Model.C01Conc.run 7 { Model.C01Conc.initLazy Gen.SchedConc.nextProg with
           th := fun j => if j = 0 then Gen.SchedConc.startProg else Gen.SchedConc.nextProg } sched).log, a.start = none :=
-  ⟨[(0, 1), (1, 2), (1, 3), (1, 4), (1, 5), (1, 6), (1, 7)], by decide⟩
+  -- the `Next` wins the Once and raises the flag; `Start` finds the flag up (whether it looks before or after the Once)
+  by first
+    | exact ⟨[(1, 1), (1, 2), (1, 3), (1, 4), (0, 5), (0, 6), (0, 7)], by decide⟩
+    | exact ⟨[(0, 1), (1, 2), (1, 3), (1, 4), (1, 5), (1, 6), (1, 7)], by decide⟩
 
 /-! ### non-vacuity: every hypothesis above is met by concrete, non-trivial inputs -/
 
-example : ConstConfig_valid 7.5 1000000 := by unfold ConstConfig_valid; norm_num
-example : ConstConfig_valid 0 1500000000 := by unfold ConstConfig_valid; norm_num
+example : ConstConfig_valid 7.5 1000000 := by unfold ConstConfig_valid; schedule_timeval_unfold; norm_num
+example : ConstConfig_valid 0 1500000000 := by unfold ConstConfig_valid; schedule_timeval_unfold; norm_num
 -- increasing from a zero rate over a fractional number of seconds; decreasing to zero over half a second; flat
-example : LineConfig_valid 0 10 1500000000 := by unfold LineConfig_valid; norm_num
-example : LineConfig_valid 10 0 500000000 := by unfold LineConfig_valid; norm_num
-example : LineConfig_valid 7.5 7.5 1000000 := by unfold LineConfig_valid; norm_num
-example : LineConfig_valid 5 50 2500500000 ∧ (5:ℝ) ≤ 50 := by unfold LineConfig_valid; norm_num
+example : LineConfig_valid 0 10 1500000000 := by unfold LineConfig_valid; schedule_timeval_unfold; norm_num
+example : LineConfig_valid 10 0 500000000 := by unfold LineConfig_valid; schedule_timeval_unfold; norm_num
+example : LineConfig_valid 7.5 7.5 1000000 := by unfold LineConfig_valid; schedule_timeval_unfold; norm_num
+example : LineConfig_valid 5 50 2500500000 ∧ (5:ℝ) ≤ 50 := by unfold LineConfig_valid; schedule_timeval_unfold; norm_num
 -- … and such a profile does contain operations (the `k < n` of `Realises` is not empty): 7 of them
 example : ⌊lineCum 0 10 1500000000 (secs 1500000000)⌋ = 7 := by
-  rw [(C01_line 0 10 1500000000 (by unfold LineConfig_valid; norm_num)).2]
+  rw [(C01_line 0 10 1500000000 (by unfold LineConfig_valid; schedule_timeval_unfold; norm_num)).2]
   unfold secs; rw [Int.floor_eq_iff]; norm_num
 -- C01_defined: a non-flat accepted line (it has 7 operations, see above, so some 0 < k < n exists)
-example : LineConfig_valid 0 10 1500000000 ∧ (0:ℝ) ≠ 10 := by unfold LineConfig_valid; norm_num
-example : StepConfig_valid 1 10 3 1500000000 ∧ (1:ℝ) ≠ 10 := by unfold StepConfig_valid; norm_num
-example : StepConfig_valid 5 5 1 1000000 := by unfold StepConfig_valid; norm_num
+example : LineConfig_valid 0 10 1500000000 ∧ (0:ℝ) ≠ 10 := by unfold LineConfig_valid; schedule_timeval_unfold; norm_num
+example : StepConfig_valid 1 10 3 1500000000 ∧ (1:ℝ) ≠ 10 := by unfold StepConfig_valid; schedule_timeval_unfold; norm_num
+example : StepConfig_valid 5 5 1 1000000 := by unfold StepConfig_valid; schedule_timeval_unfold; norm_num
 -- C01_prefix: an earliest instant and a later instant of a real profile (operation 1 of const 2/s over 1 s, y = 0.75 s)
 example : EarliestAt (lineCum 2 2 1000000000) 1000000000 1 0.5 ∧ (0:ℝ) ≤ 0.75 ∧ (0.75:ℝ) ≤ secs 1000000000 := by
   unfold EarliestAt lineCum secs
   refine ⟨⟨by norm_num, by norm_num, by norm_num, ?_⟩, by norm_num, by norm_num⟩
   intro y _ hy; norm_num; linarith
-example : OnceConfig_valid 3 := by unfold OnceConfig_valid; norm_num
+-- 3·10⁹ operations written as a JSON number: beyond 2³¹, inside the hooks' range; 2.5 is refused
+example : OnceConfig_valid 3000000000 ∧ (3000000000 : ℤ) < 2 ^ 63 ∧ WholeNumberHook_rejects 2.5 := by
+  refine ⟨by unfold OnceConfig_valid; schedule_timeval_unfold; norm_num, by norm_num, ?_⟩
+  by_contra h
+  have := ((float_for_int64_iff 2.5).mp ⟨h, by unfold NumberRangeHook_fits_float kindBits_Int64; norm_num⟩)
+  obtain ⟨z, hz, _, _⟩ := this
+  have h2 : ((2 * z : ℤ) : ℝ) = 5 := by push_cast; rw [hz]; norm_num
+  have h3 : (2 * z : ℤ) = 5 := by exact_mod_cast h2
+  omega
+example : OnceConfig_valid 3 := by unfold OnceConfig_valid; schedule_timeval_unfold; norm_num
 -- a run in which the profile is exhausted (C01_finish) and a leaf that realises a profile (C01_bounds)
 example : ∃ rs, startAndDrain 1000 2 (fun i => i * 10) 5 [0, 0, 0] = Except.ok rs ∧ 2 < rs.length ∧ (2:ℤ) ≤ ((2:ℕ):ℤ) :=
   ⟨_, C01_leaf_run _ _ _ _ _, by simp, by simp⟩
 example : Realises (NewConstConf 7.5 1000000) (constCum 7.5) 1000000 :=
-  C01_const _ _ (by unfold ConstConfig_valid; norm_num)
+  C01_const _ _ (by unfold ConstConfig_valid; schedule_timeval_unfold; norm_num)
 example : (0:ℤ) ≤ 7 := by norm_num
 -- C01_chain / C01_step_chain: three levels of which the middle one holds no operation; a step profile with 4 levels
 example : chainRun [((10:ℤ), (2:ℤ), fun k => 3 * k), (10, 0, fun _ => 0), (10, 1, fun _ => 7)] 100 [0, 0, 0, 0, 0] =
@@ -725,15 +812,15 @@ example : chainRun [((10:ℤ), (2:ℤ), fun k => 3 * k), (10, 0, fun _ => 0), (1
   simp [opsBefore, durBefore, totalOps, totalDur] at a0 a1 a2 a3 a4
   simp [List.range_succ, a0, a1, a2, a3, a4]
 example : StepConfig_valid 1 10 3 1500000000 ∧ (1:ℝ) ≠ 10 ∧ (stepLevels 1 10 3 1500000000).length = 4 := by
-  refine ⟨by unfold StepConfig_valid; norm_num, by norm_num, ?_⟩
+  refine ⟨by unfold StepConfig_valid; schedule_timeval_unfold; norm_num, by norm_num, ?_⟩
   have : ⌊((10:ℝ) - 1) / 3⌋₊ = 3 := by rw [Nat.floor_eq_iff (by norm_num)]; norm_num
   simp [stepLevels, Go.loopLE, this]
 -- C01_int64_range, C01_const_float, C01_float_partial: the rounding model is inhabited (exact arithmetic, and a rounding
 -- that is always 1/16 too high), the configurations are the ones above
 example : LineConfig_valid 0 10 1500000000 ∧ (1500000000:ℤ) < 2 ^ 63 ∧
     lineCum 0 10 1500000000 (secs 1500000000) < 2 ^ 63 := by
-  refine ⟨by unfold LineConfig_valid; norm_num, by norm_num, ?_⟩
-  rw [(C01_line 0 10 1500000000 (by unfold LineConfig_valid; norm_num)).2]; unfold secs; norm_num
+  refine ⟨by unfold LineConfig_valid; schedule_timeval_unfold; norm_num, by norm_num, ?_⟩
+  rw [(C01_line 0 10 1500000000 (by unfold LineConfig_valid; schedule_timeval_unfold; norm_num)).2]; unfold secs; norm_num
 example : Rounding 0 (fun x => x) ∧ Rounding (1 / 16) (fun x => x * (1 + 1 / 16)) := ⟨rounding_id, rounding_up⟩
 example : ∃ fl, Rounding (1 / 2 ^ 53) fl := ⟨fun x => x, by norm_num, by norm_num, by intro x; simp⟩
 example : (9:ℝ) * (1 / 16) * constCum 1 (secs 1000000000) ≤ 1 := by unfold constCum secs; norm_num
